@@ -507,9 +507,13 @@ pub fn run_c05(ctx: &mut Ctx) {
                     let d = format!("C05;serde-teardown;N={n};c={c};up={up:?};fail={}", fail_at.map_or("-".to_string(), |k| k.to_string()));
                     // the fault-free run tells how many elements get created: each is a candidate
                     elems::reset_all();
-                    let made = match catch(|| teardown_fault::<N>(plan, None)) {
-                        Ok(Ok((_, m))) => m,
-                        _ => 0,
+                    let made = if !ctx.prerun(&d, &format!("{d};e=-")) {
+                        0
+                    } else {
+                        match catch(|| teardown_fault::<N>(plan, None)) {
+                            Ok(Ok((_, m))) => m,
+                            _ => 0,
+                        }
                     };
                     ctx.case(&format!("{d};e=-"), || teardown_fault::<N>(plan, None).map(|x| x.0));
                     for e in 0..made {
